@@ -17,6 +17,9 @@ Step == l' = l + 1
 NoConfigs == {}
 NoOps(c) == {}
 NoUpdates(k) == {}
+NoBuilderCalls(bs, md) == {}
+CallOf(e) == [c |-> e.c, b |-> e.b, p |-> e.p, pats |-> e.pats, x |-> e.x, onto |-> e.onto]
+Fresh == blds' = <<>> /\ made' = <<>> /\ hist' = <<>>
 
 DescOp(e) == [o |-> "describe", kind |-> e.kind, name |-> e.name, unit |-> e.unit, desc |-> e.desc]
 RegOp(e) == [o |-> "register", kind |-> e.kind, name |-> e.name, labels |-> e.labels, lvl |-> e.lvl, tgt |-> e.tgt, mod |-> e.mod]
@@ -28,7 +31,12 @@ Same(expected, got) ==
 
 TraceNext ==
   /\ l <= Len(Rec)
-  /\ CASE E.ev = "reset"    -> Setup(E.cfg) /\ Step
+  /\ CASE E.ev = "reset"    -> (IF E.cfg.t = "none"            \* start of a builder history: nothing configured yet
+                                 THEN cfg' = NoCfg /\ regs' = <<>> /\ handles' = <<>> /\ last' = [o |-> "none"]
+                                      /\ ncalls' = 0 /\ nupd' = 0
+                                 ELSE Setup(E.cfg)) /\ Fresh /\ Step
+       [] E.ev = "build"    -> Build(CallOf(E)) /\ Step           \* a call on a real FilterLayer / PrefixLayer value
+       [] E.ev = "assemble" -> Assemble /\ Step                   \* the products go under one Fanout
        [] E.ev = "describe" -> Describe(DescOp(E)) /\ Step /\ Same(last'.out, E.got)
        [] E.ev = "register" -> Register(RegOp(E)) /\ Step /\ Same(last'.out, E.got) /\ E.h = Len(handles')
        [] E.ev = "update"   -> /\ E.h \in DOMAIN handles /\ handles[E.h].kind = E.kind
